@@ -34,6 +34,14 @@ def case_from_record(rec):
     return c
 
 
+def corpus(pid):
+    # F7 (fixed by 0b0dc59 + 0962223): 8x3 integer front with tied extremes, truncated to 2*M = 6 members by the
+    # pure-Python pcd under many seeds (the old code lost a unique extreme with probability 2/7 per seed)
+    n = len(comp_crowd.W_F7)
+    return [{"cls": "rnc", "metric": "pcd", "n_survive": 6, "F": comp_crowd.W_F7, "G": np.zeros((n, 0)), "H": np.zeros((n, 0)),
+             "seed": 1000 + k, "both_engines": True} for k in range(24)]
+
+
 def run_batch(cases):
     # phase 1: which compiled pcd calls are defined?
     probe = []
@@ -50,8 +58,12 @@ def run_batch(cases):
         if unsafe:
             r = Record(NAME, {k: c[k] for k in ("cls", "metric", "n_survive", "seed")}, {k: np.array(c[k], dtype=float) for k in ("F", "G", "H")})
             r.cfg["skipped"] = "compiled pcd undefined on this front (%s)" % unsafe[0]
+            r.cfg["trunc"] = True
             r.tags.add("skipped-unsafe-pcd")
             recs.append(r)
+            if c.get("both_engines"):       # the pure-Python engine is still defined there
+                fb_jobs.append({"kind": "surv", "F": c["F"], "case": {k: c[k] for k in ("cls", "metric", "n_survive", "F", "G", "H", "seed")}})
+                fb_idx.append(len(recs) - 1)
             continue
         r = comp_surv.run(c)
         r.cfg["trunc"] = True
@@ -111,15 +123,13 @@ def _split_fronts(rec):
 
 
 def oracle_C15(rec):
-    if "skipped" in rec.cfg:
-        return []
     if rec.err is not None:
         return ["survival raised: " + rec.err]
     F = rec.inp["F"]
     M = F.shape[1]
     label = rec.cfg["metric"]
     bad = []
-    for fr, kept, vals, nr in _split_fronts(rec):
+    for fr, kept, vals, nr in ([] if "skipped" in rec.cfg else _split_fronts(rec)):
         FF = F[fr]
         k = len(kept)
         if k != len(fr) - nr:
